@@ -12,7 +12,7 @@ ls -d seeded/C*/ seeds/own/*.diff seeds/neutral/*.diff 2>/dev/null | while read 
   esac
   echo "$name $patch"
 done > $tmp/list
-cat $tmp/list | xargs -P 6 -L 1 sh -c './tools_tryseed.sh "$1" > '$tmp'/"$0".out 2>&1'
+cat $tmp/list | xargs -P 14 -L 1 sh -c './tools_tryseed.sh "$1" > '$tmp'/"$0".out 2>&1'
 : > $out
 while read name patch; do
   hits=$(grep "^== C" $tmp/$name.out | sed -e 's/== \(C[0-9]*\) exit=\([0-9]*\)/\1(\2)/' | tr '\n' ' ')
